@@ -66,6 +66,32 @@ impl Report {
         self.tier == "thorough"
     }
 
+    /// Take over what a repetition of the monitor from another start state (a further constructor) observed.
+    pub fn absorb(&mut self, sub: Report, ctor: &str) {
+        self.evaluations += sub.evaluations;
+        self.panics += sub.panics;
+        self.count(&format!("evaluations_repeated_from_{}", ctor), sub.evaluations);
+        self.notes.push(format!("the tree offers the further constructor {}: the whole monitor was repeated with decoders built by it ({} evaluations, {} distinct violations)", ctor, sub.evaluations, sub.order.len()));
+        for m in sub.inconclusive {
+            self.inconclusive.push(format!("[{}] {}", ctor, m));
+        }
+        for k in sub.order {
+            // what the run from `new()` reports as well is not a matter of this constructor
+            if self.violations.contains_key(&k) {
+                continue;
+            }
+            if let Some(v) = sub.violations.get(&k) {
+                let rp = match &v.replay {
+                    J::Null => J::Null,
+                    other => other.clone().with("ctor", J::s(ctor)),
+                };
+                for _ in 0..v.count.min(1) {
+                    self.violate(format!("{}|ctor={}", v.sig, ctor), format!("[decoder built with {}] {}", ctor, v.what), rp.clone());
+                }
+            }
+        }
+    }
+
     /// Record a violation. `sig` must be history-independent where possible.
     pub fn violate(&mut self, sig: String, what: String, replay: J) {
         self.violation_events += 1;
